@@ -46,7 +46,8 @@ def _case(draw):
                 watch_event=draw(st.sampled_from([False, False, True])),
                 # after the run and one lookup by time: reset(), the span mirrored about t0 (tf re-declared), a second run with the
                 # same number of steps the other way - the lookups are judged on that second record
-                rerun_mirrored=draw(st.sampled_from([False, False, False, True])))
+                rerun_mirrored=draw(st.sampled_from([False, False, False, True])),
+                probe_in_callback=draw(st.sampled_from([False, False, True])))
 
 
 def parts(tier):
@@ -60,7 +61,7 @@ def check(case):
     fam = M.family(M.get(method))
     backward = case["tf"] < case["t0"]
     attrs = dict(method=method, family=fam, dense=bool(case["dense"]), direction="backward" if backward else "forward")
-    labels = ["family:" + fam, "dense:on" if case["dense"] else "dense:off", "backward" if backward else "forward", "dtype:" + case.get("dtype", "float64")]
+    labels = ["family:" + fam, "dense:on" if case["dense"] else "dense:off", "backward" if backward else "forward", "dtype:" + case.get("dtype", "float64")] + (["index_lookups_inside_a_callback"] if case.get("probe_in_callback") else [])
     mirror = case["t0"] - (case["tf"] - case["t0"])
     if case.get("against"):
         # the system is declared over the mirrored span and every call is an explicit integrate(t) against it
@@ -79,7 +80,28 @@ def check(case):
 
             def watch(t, y, _tc=tc_, **kw):      # a non-terminal event: the run keeps step interpolants for it even without dense output
                 return t - _tc
-        err = traj.run_integrate(a, tg, step_limit=len(a) + 1500, events=[watch] if watch is not None else None)
+        in_cb = []
+
+        def probe(system):
+            # index lookups made while integrate() is running (the buffers are over-allocated then)
+            n_ = len(system)
+            try:
+                last, first = system[-1], system[-n_]
+                if float(last.t) != float(system.t[-1]) or float(first.t) != float(system.t[0]) or float(system[n_ - 1].t) != float(system.t[-1]):
+                    in_cb.append("inside a callback with {} samples: system[-1].t = {!r}, system[-len].t = {!r}, recorded t[-1] = {!r}, t[0] = {!r}".format(n_, float(last.t), float(first.t), float(system.t[-1]), float(system.t[0])))
+            except Exception as e_:
+                in_cb.append("inside a callback with {} samples: system[-1] / system[-len] raised {!r}".format(n_, e_))
+            for bad_ in (-n_ - 1, n_):
+                try:
+                    system[bad_]
+                    in_cb.append("inside a callback with {} samples: system[{}] did not raise IndexError".format(n_, bad_))
+                except IndexError:
+                    pass
+                except Exception as e_:
+                    in_cb.append("inside a callback with {} samples: system[{}] raised {!r}".format(n_, bad_, e_))
+        err = traj.run_integrate(a, tg, step_limit=len(a) + 1500, events=[watch] if watch is not None else None, callbacks=[probe] if case.get("probe_in_callback") else None)
+        if in_cb:
+            return [V("index_inside_callback", in_cb[0], ("backward" if backward else "forward"), **attrs)], dict(nontrivial=False, labels=labels)
         if err is None and before is not None:
             # the first lookup after the continuing call repeats the last lookup before it, bit for bit
             try:
